@@ -63,7 +63,7 @@ manifest = {
         {"name": "K", "path": "/verif/kani", "serves_properties": [p for p in ALL if p in PROPS and PROPS[p]["engine"] in ("kani", "mixed")],
          "kind_free_text": "Kani 0.68 / CBMC 6.11 bounded model checking of the real crates via out-of-tree harness crates (path deps on /repo), dependency models patched in for crossbeam-channel and slab"},
         {"name": "M", "path": "/verif/vlib", "serves_properties": [p for p in ALL if p in PROPS and (PROPS[p]["engine"] in ("mir", "mixed") or p == "C19")],
-         "kind_free_text": "MIR -> SMT-LIB2 symbolic executor (python: vlib/mir.py and the per-property modules c19, c15, c16m, c17m, c03m, c05m, c12m, c02m, factsm, c04m, c18m, c11m, c13m) over fresh MIR dumps of /repo's crates (and of the http-types fork), decided by z3 4.8.12 with cvc5 1.0 cross-check; counterexamples replayed through native drivers under /verif/kani/*_replay"},
+         "kind_free_text": "MIR -> SMT-LIB2 symbolic executor (python: vlib/mir.py and the per-property modules c19, c15, c16m, c17m, c03m, c05m, c12m, c02m, factsm, c04m, c18m, c11m, c13m, c14m) over fresh MIR dumps of /repo's crates (and of the http-types fork), decided by z3 4.8.12 with cvc5 1.0 cross-check; counterexamples replayed through native drivers under /verif/kani/*_replay"},
     ],
     "checks": checks,
     "not_applicable": na,
